@@ -466,6 +466,9 @@ char *FUNC(generate)(jwt_common_t *__cmd)
 	}
 
 	/* Callback may have changed this */
+	if (config.alg == JWT_ALG_NONE && config.key)
+		config.alg = config.key->alg;
+
 	if (__setkey_check(__cmd, config.alg, config.key)) {
 		jwt_write_error(__cmd, "Algorithm and key returned by callback invalid");
 		return NULL;
